@@ -147,3 +147,39 @@ fn character_codes() {
         }
     }
 }
+
+/// TeX.2021.407 scan_keyword: a keyword that matches only PARTLY puts every token back in its original order, so the
+/// characters left after the scan are exactly the ones that were not part of the value
+#[test]
+fn keyword_partial_matches() {
+    std::panic::set_hook(Box::new(|_| {}));
+    // (source, width sp, stretch sp, shrink sp, what must be left in the input)
+    let cases: [(&str, i32, i32, i32, &str); 16] = [
+        ("1pt pl", 65536, 0, 0, "pl"), ("1pt plu", 65536, 0, 0, "plu"), ("1pt plux", 65536, 0, 0, "plux"), ("1pt p", 65536, 0, 0, "p"),
+        ("1pt plus 2pt mi", 65536, 131072, 0, "mi"), ("1pt plus 2pt minu", 65536, 131072, 0, "minu"), ("1pt plus 2pt minute", 65536, 131072, 0, "minute"),
+        ("1pt min", 65536, 0, 0, "min"), ("1pt minus 3pt plu", 65536, 0, 196608, "plu"), ("1pt minus 3pt", 65536, 0, 196608, ""),
+        ("1pt minus 3pt plus 2pt", 65536, 0, 196608, "plus 2pt"), ("1pt plus 1fi", 65536, 0, 0, "fi"), ("1pt plus 1filx", 65536, 65536, 0, "x"),
+        ("1pt plus 1fillll", 65536, 65536, 0, ""), ("1pt PLus 2PT MINus 3pT tr", 65536, 131072, 196608, "tr"), ("1ptplus2ptminus3ptminus", 65536, 131072, 196608, "minus"),
+    ];
+    for (src, w, st, sh, rest) in cases {
+        let got = scan_rest::<common::Glue>(src);
+        // (a missing unit after `plus 1fi` / a value that is not there are errors: only the leftover is compared then)
+        let ok = match &got {
+            Some((g, _e, r)) => r.trim_end() == rest && g.width.0 == w && (src.contains("1fi") && !src.contains("fil") || (g.stretch.0 == st && g.shrink.0 == sh)),
+            None => false,
+        };
+        if !ok {
+            println!("WITNESS {{\"fn\": \"parse_keyword\", \"unit_fns\": [\"parse_keyword\", \"parse_impl\"], \"source\": \"{src}\", \"observed\": \"{}\", \"expected\": \"width {w}sp stretch {st}sp shrink {sh}sp, then `{rest}` left in the input in its original order (TeX.2021.407, 461)\"}}", format!("{:?}", got).replace('"', "'"));
+            return;
+        }
+    }
+    // the same for a dimension: `true`, the units, em / ex
+    for (src, v, rest) in [("1tr", 65536, "tr"), ("1 tru", 65536, "tru"), ("1truept", 65536, ""), ("1pq", 65536, "pq"), ("1e", 65536, "e"), ("1.5ptp", 98304, "p"), ("2cq", 131072, "cq")] {
+        let got = scan_rest::<common::Scaled>(src);
+        let ok = matches!(&got, Some((d, _e, r)) if r.trim_end() == rest && d.0 == v);
+        if !ok {
+            println!("WITNESS {{\"fn\": \"parse_keyword\", \"unit_fns\": [\"parse_keyword\", \"scan_and_apply_units\"], \"source\": \"{src}\", \"observed\": \"{}\", \"expected\": \"{v}sp (a missing unit is an error and pt is assumed), then `{rest}` left in the input\"}}", format!("{:?}", got).replace('"', "'"));
+            return;
+        }
+    }
+}
